@@ -46,7 +46,7 @@ pub fn project_test(tc: &TestCase) -> Value {
         "code": tc.exit_code.map(|c| c.to_string()).unwrap_or_default(),
         "cfg": cfg,
         "line": tc.line_number,
-        "title": if tc.title.is_empty() { vec![] } else { tc.title.split('\n').map(|s| s.to_string()).collect::<Vec<_>>() },
+        "title": if tc.title.is_empty() { vec![] } else { tc.title.split('\n').map(|s| s.replace('Ü', "@P@")).collect::<Vec<_>>() },
     })
 }
 
@@ -65,7 +65,7 @@ pub fn replay(args: &[String]) {
     let items: Vec<(u64, Value)> = vectors.into_iter().enumerate().map(|(i, v)| (i as u64 + 1, v)).collect();
     let n = items.len();
     let results = run_guarded_par(items, Duration::from_secs(30), threads(), |(id, v): &(u64, Value)| {
-        let lines: Vec<String> = v["lines"].as_array().unwrap().iter().map(|l| l.as_str().unwrap().replace("@U@", "aü")).collect();
+        let lines: Vec<String> = v["lines"].as_array().unwrap().iter().map(|l| l.as_str().unwrap().replace("@U@", "aü").replace("@P@", "Ü")).collect();
         let mut out = vec![];
         for (vi, (crlf, fnl)) in [(false, true), (true, true), (false, false), (true, false)].iter().enumerate() {
             let text = render_text(&lines, *crlf, *fnl);
